@@ -470,8 +470,8 @@ class HyReader(Reader):
         in_named_escape = False
         for c in self.chars():
             s.append(c)
-            # check if c is closing
-            n_closing_chars = closing(c)
+            # check if c is closing (the "}" of "\N{...}" never is)
+            n_closing_chars = 0 if in_named_escape and c == "}" else closing(c)
             if n_closing_chars:
                 # string has ended
                 s = s[:-n_closing_chars]
